@@ -127,7 +127,8 @@ pub fn decidable(
         let nti = cfg.get_non_terminal_index_function();
         let mut current_k = 1;
         loop {
-            if current_k > max_k {
+            // The caches hold MAX_K + 1 entries: never look beyond MAX_K, whatever limit was given.
+            if current_k > max_k || current_k > MAX_K {
                 break;
             }
             let productions = cfg.matching_productions(non_terminal);
